@@ -1,7 +1,7 @@
 #!/bin/bash
 # tools/run_all.sh <quick|thorough> [seed]  -- runs every claimed check sequentially, prints one summary line each.
 TIER="${1:-quick}"; export VERIF_SEED="${2:-0}"
-cd "$(dirname "$0")/.."
+cd "$(dirname "$0")/.."; mkdir -p .work
 for p in $(/venv/bin/python -c "import json; print(' '.join(c['property_id'] for c in json.load(open('MANIFEST.json'))['checks']))"); do
   ./check $p $TIER > .work/last_$p.log 2>&1; rc=$?
   echo "rc=$rc $(grep -E "^$p $TIER" .work/last_$p.log | cut -c1-230)"
